@@ -1,4 +1,5 @@
 import SV.Model.C01
+import SV.Model.C02
 import SV.Model.C11
 import SV.Model.PolyOps
 /-!
@@ -10,6 +11,7 @@ open SV
 def dispatch (prop : String) : Option (String → String) :=
   match prop with
   | "C01" => some C01.Driver.handle
+  | "C02" => some C02.Driver.handle
   | "C11" => some C11.Driver.handle
   | "POLY" => some PolyOps.handle
   | _ => none
